@@ -8,6 +8,8 @@ import TinsModel.Basic.Seq32
     by `cyclicSucc` (least key greater than `k`, else the least key).
   * `total_buffered_bytes_` is `uint32_t`: every update wraps.
   * A chunk that has been `std::move`d from counts 0 bytes in `erase_iterator`.
+  * `added_some` is set only when a NON-EMPTY chunk is appended (the model follows the commit
+    "fix: DataTracker::process_payload reports new data for a retransmission that adds none").
 -/
 namespace Tins.DT
 
